@@ -6,7 +6,9 @@ from pyvc.values import Sym, SymSeq, term, wrap
 from spec.idx import IdxSort, idx_space, idx_spin, orb, orb_spin, valid_index, same_orbital
 
 OpSort = z3.DeclareSort("Op")
-op_class = z3.Function("op_class", OpSort, z3.StringSort())   # "F" | "Fd"
+op_class = z3.Function("op_class", OpSort, z3.IntSort())   # code into OP_CLASSES
+OP_CLASSES = ["F", "Fd"]
+F_CODE, FD_CODE = 0, 1
 op_idx = z3.Function("op_idx", OpSort, IdxSort)
 
 C.SUBCLASS.update({
@@ -26,7 +28,7 @@ def _state(ip, s):
 OP = Schema(
     "FermionicOperator", OpSort,
     attrs={
-        "class": ("enum", op_class, ["F", "Fd"]),
+        "class": ("enum", op_class, OP_CLASSES),
         "args": ("py", _args),
         "state": ("py", _state),
         "is_commutative": ("py", lambda ip, s: False),
@@ -35,8 +37,7 @@ OP = Schema(
 
 
 def valid_op(t):
-    return z3.And(z3.Or(op_class(t) == z3.StringVal("F"),
-                        op_class(t) == z3.StringVal("Fd")),
+    return z3.And(z3.Or(op_class(t) == F_CODE, op_class(t) == FD_CODE),
                   valid_index(op_idx(t)))
 
 
@@ -45,7 +46,7 @@ def pair_vev(p, q):
     annihilator-creator: delta * [virtual]; creator-annihilator: delta * [occupied]
     (anticommutation relations in a determinant)."""
     ip_, iq = op_idx(p), op_idx(q)
-    F, Fd = z3.StringVal("F"), z3.StringVal("Fd")
+    F, Fd = F_CODE, FD_CODE
     return z3.If(
         z3.And(op_class(p) == F, op_class(q) == Fd, same_orbital(ip_, iq), orb(ip_) >= 0),
         z3.RealVal(1),
